@@ -10,8 +10,8 @@
 (*            (independent reader), with ret |-> "ok" | "err" | "zip" ...  *)
 (*    re  |-> accessor view of the saved bytes opened again, with ret]     *)
 (* The judge never blocks: deviations become witnesses                     *)
-(*   <<"C12", operation[:argument class], class of the state before,       *)
-(*     class of the state the specification expects, failing field>>       *)
+(*   <<"C12", operation[:argument class] | "read", size class, orientation,*)
+(*     failing field>>                                                     *)
 (* and the specification state is resynchronised on what was saved.        *)
 (***************************************************************************)
 EXTENDS PageSet, Json, IOUtils
@@ -39,23 +39,23 @@ Actual(e) ==
      ELSE IF XmlDiff(exp, e.xml) = {} THEN exp ELSE FromXml(e.xml)
 
 \* (1) the step: return value and saved settings against the specification
-\*     <<"C12", operation[:argument class], class of the state before, failing field>>
+\*     <<"C12", operation[:argument class], size class and orientation of the state before, failing field>>
 StepWit(e) ==
   LET exp == Expected(cur, e.op, e.ret)
       fs  == IF e.ret = "panic" THEN {"panic"}
              ELSE (IF RetOK(cur, e.op, e.ret) THEN {} ELSE {"ret"})
                   \cup (IF e.xml.ret # "ok" THEN {"save." \o e.xml.ret} ELSE XmlDiff(exp, e.xml))
-  IN {<<"C12", OpSig(e.op), Class(cur), f>> : f \in fs}
+  IN {<<"C12", OpSig(e.op), SizeClassFor(f, cur), OrientClass(cur), f>> : f \in fs}
 
 \* (2) reading: what GetPageSettings reports - for the live document and for the saved bytes opened
 \*     again - against the settings the document really holds (its saved section settings)
-\*     <<"C12", "read", class of the state held, failing field>>
+\*     <<"C12", "read", size class and orientation of the state held, failing field>>
 ReadWit(e) ==
   LET act == Actual(e)
       fs  == (IF e.get.ret # "ok" THEN {"get." \o e.get.ret} ELSE GetDiff("get.", act, e.get))
              \cup (IF e.xml.ret # "ok" THEN {}
                    ELSE IF e.re.ret # "ok" THEN {"reopen." \o e.re.ret} ELSE GetDiff("reopen.", act, e.re))
-  IN {<<"C12", "read", Class(act), f>> : f \in fs}
+  IN {<<"C12", "read", SizeClass(act), OrientClass(act), f>> : f \in fs}
 
 Judge(e) == StepWit(e) \cup ReadWit(e)
 Resync(e) == Actual(e)
